@@ -148,6 +148,21 @@ def run_bounded(chk):
             if not (g > 0 and abs(val - 1) < 1e-9):
                 fails.append((f"{cls}{args}", {"angle": float(th), "distance": float(g), "ellipse_equation_value": val}))
                 break
+    # the same object after public moves / resizes: distances equal those of a fresh shape with the current vertices
+    from . import stale
+    ang = np.array(angle_set([], (0, 0), "quick"))
+
+    def dist(shape):
+        return {"distance_to_surface": np.asarray(shape.distance_to_surface(ang.copy()), float)}
+    pent = [[x + 1.5, y - 2.0, 0.0] for x, y in corpus.polygons_2d()["pentagon_irregular"]]
+    quad = [[x - 3.0, y + 0.5, 0.0] for x, y in corpus.polygons_2d()["quad_irregular"]]
+    for label, obj in (("ConvexPolygon:pentagon", cox.shapes.ConvexPolygon(pent)), ("ConvexSpheropolygon:pentagon", cox.shapes.ConvexSpheropolygon(pent, 0.4)),
+                       ("ConvexSpheropolygon:quad", cox.shapes.ConvexSpheropolygon(quad, 1.5)), ("ConvexPolygon:quad", cox.shapes.ConvexPolygon(quad))):
+        n_cases += 1
+        muts = stale.standard_mutators(obj)
+        if hasattr(obj, "polygon"):
+            muts = muts + [("polygon.centroid+=(1,-2,0)", lambda o: setattr(o.polygon, "centroid", np.asarray(o.polygon.centroid, float) + np.array([1.0, -2.0, 0.0])))]
+        n_eval += len(ang) * stale.read_mutate_read(obj, dist, f"history:{label}", fails, mutators=muts)
     for name, info in fails[:5]:
         chk.record(f"bounded:distance_to_surface[{name}]", fkey, "bounded-fail", "exact-ray", detail=str(info)[:500], model={},
                    kind="bounded", replay=lambda m, info=info, name=name: (True, {"case": name, **info}))
@@ -156,6 +171,7 @@ def run_bounded(chk):
     chk.bounded.append({"clause": "centre + d(theta)(cos theta, sin theta) lies on the boundary, centre = centroid (core centroid for spheropolygons)",
                         "bound": "8 convex polygons (regular and irregular, axis-aligned edges) x 2 in-plane rotations, off-origin; radii "
                                  "{none, 0, 1e-3, 0.1, 1, 10} x size; theta: 97 (quick) / 801 points of [-4pi, 4pi], multiples of pi/4, vertex "
-                                 "directions +- 2pi; tolerance 1e-6 size",
+                                 "directions +- 2pi; tolerance 1e-6 size; 4 objects read, then moved / resized through their public setters and re-read "
+                                 "against a fresh construction",
                         "evaluations": n_eval, "distinct_nontrivial": n_cases, "rule": "distinct = (polygon, rotation, radius)",
                         "samples": [{"polygon": "quad_irregular", "radius": 0.5}], "failures": len(fails), "exhaustive": False})
